@@ -169,7 +169,7 @@ def run(chk):
     # Rspt!ReRspt obtains by solving (E0 - H0) psi(n) = ... in determinant
     # space; the derived residuals must vanish, the derived energies agree.
     first = len(chk.events)
-    Kre = 2 if quick else 3
+    Kre = 3
     re_sizes = [(3, 3), (2, 3), (2, 2)] if quick else [(3, 3), (3, 2), (2, 3)]
     gm3 = global_models(names, re_sizes, seeds[:2], Kre, 3, variant="re")
     refs3 = [(k + 1, gm3[k]["noa"], gm3[k]["nva"]) for k in range(len(gm3))]
@@ -190,9 +190,10 @@ def run(chk):
              (re, 1, "pphh", "klcd"), (re, 2, "pphh", "jiba"),
              (re_s, 1, "ph", "ia"), (re_s, 2, "ph", "kc"),
              (re_s, 1, "pphh", "ijab")]
+    # third order: the first order at which E(m) t(n-m) with m >= 2 enters
+    rreqs += [(re, 3, "ph", "ia"), (re, 3, "pphh", "ijab")]
     if not quick:
-        rreqs += [(re, 3, "ph", "ia"), (re, 3, "pphh", "ijab"),
-                  (re_s, 2, "pphh", "ijab"), (re, 2, "ppphhh", "ijkabc")]
+        rreqs += [(re_s, 2, "pphh", "ijab"), (re, 2, "ppphhh", "ijkabc")]
     for (g, n, space, idx) in rreqs:
         res, exc = guarded(g.amplitude_residual, n, space, idx)
         chk.count("derivations")
